@@ -139,6 +139,35 @@ func VerifReq_Lifecycle() {
 			}
 		}
 	}
+	// ONLINERACE: the caller cancels (context or API) and the manager handles
+	// it at the moment the executor, at its first local miss, is about to go
+	// online
+	if verifrt.Param("ONLINERACE", 0) == 1 {
+		if race := verifrt.Choose("go-online-race", 3); race != 0 {
+			fired := false
+			e.OnGoOnline = func() {
+				if fired {
+					return
+				}
+				fired = true
+				verifrt.Cover("online-race")
+				if race == 1 {
+					inProgressAtCancel = inProgressAtCancel || (failure == 0 && !hookErr)
+					rq.Cancel()
+					ctxCancelled = true
+				} else {
+					go func() {
+						if !apiCancelled {
+							inProgressAtCancel = inProgressAtCancel || (listed() && failure == 0 && !hookErr)
+							apiCancelled = true
+							_ = e.RM.CancelRequest(e.Ctx, rq.ID)
+						}
+					}()
+				}
+				verifrt.Quiesce()
+			}
+		}
+	}
 	rq = e.Start(pA, 0)
 	kit.Drain() // the executor runs until its first local miss and sends the request
 	// the responder answers the most recent new request it received: a fresh
@@ -243,7 +272,9 @@ func VerifReq_Lifecycle() {
 			continue
 		}
 		// the responder answers every (re-)request it has not answered to the end
-		if ok && sync() && epoch != answered {
+		// ... unless the caller has cancelled: a cancellation must take effect
+		// without any further help from the responder
+		if ok && sync() && epoch != answered && !ctxCancelled && !apiCancelled {
 			e.Deliver(pA, rq.ID, full[sentItems:], graphsync.RequestCompletedFull)
 			sentItems = len(full)
 			terminalSent = true
